@@ -774,6 +774,9 @@ func (fr *Frame) exec(st *State, in ssa.Instruction) {
 		fr.safeNonNil(st, p, i.Pos(), "store through nil pointer")
 		v := fr.get(i.Val)
 		t := i.Addr.Type().Underlying().(*types.Pointer).Elem()
+		if v.Loc != nil && v.T == "" {
+			v = u.snapshotInterior(st, v)
+		}
 		u.store(st, p, t, v)
 	case *ssa.FieldAddr:
 		p := fr.get(i.X)
@@ -1661,4 +1664,25 @@ func (u *Unit) typeInvFacts(st *State, v Val) {
 	t := env.trBool(ti.E)
 	u.assumeG(st, implies(not(eq(v.T, "0")), t))
 	u.note("type invariant of %s.%s assumed of loaded values: %s", ti.PkgPath, ti.Name, ti.Src)
+}
+
+// snapshotInterior: the address of a struct-typed field (&x.f) is stored in the heap. Interior pointers have no
+// first-class value in this model; the stored pointer is represented by a new reference whose fields hold the CURRENT
+// values of x.f (a snapshot, not an alias: later writes to x.f are not seen through it, and writes through it do not
+// reach x.f). Listed as an assumption; sound for read-only uses of data that is not modified afterwards (route options).
+func (u *Unit) snapshotInterior(st *State, v Val) Val {
+	pt, ok := v.Ty.Underlying().(*types.Pointer)
+	if !ok || !isStructT(pt.Elem()) {
+		u.unsup("storing an interior pointer to a non-struct (%s)", v.Ty)
+	}
+	stT := canon(pt.Elem())
+	sT := stT.Underlying().(*types.Struct)
+	cur := u.load(st, v, stT)
+	r := u.newRef(st)
+	for i := 0; i < sT.NumFields(); i++ {
+		h, _ := u.fieldHeap(stT, i)
+		u.heapStoreAt(st, h, r, app(u.enc.accessor(stT, i), cur.T))
+	}
+	u.note("address of a struct field stored in the heap: represented by a snapshot copy of the field's current value (not an alias)")
+	return Val{T: r, S: "Int", Ty: v.Ty}
 }
